@@ -206,12 +206,18 @@ void GridGlobal::updateGrid(int depth, TypeDepth type, const std::vector<int> &a
     if ((num_outputs == 0) || points.empty()){
         makeGrid(num_dimensions, num_outputs, depth, type, rule, anisotropic_weights, alpha, beta, 0, level_limits);
     }else{
+        MultiIndexSet new_tensors = selectTensors((size_t) num_dimensions, depth, type, anisotropic_weights, rule, level_limits);
+        bool has_new_tensors = !(new_tensors - tensors).empty();
+        if (has_new_tensors){
+            new_tensors += tensors;
+            // check that the rule has enough levels (e.g., tabulated rules) before the pending refinement is discarded
+            OneDimensionalWrapper(custom, new_tensors.getMaxIndex(), rule, alpha, beta);
+        }
+
         clearRefinement();
 
-        updated_tensors = selectTensors((size_t) num_dimensions, depth, type, anisotropic_weights, rule, level_limits);
-
-        if (!(updated_tensors - tensors).empty()){
-            updated_tensors += tensors;
+        if (has_new_tensors){
+            updated_tensors = std::move(new_tensors);
             proposeUpdatedTensors();
         }else{
             updated_tensors = MultiIndexSet(); // nothing new, there is no pending update
